@@ -68,6 +68,7 @@ type scenario struct {
 	tpls     []chainx.Tpl
 	depth    int
 	filter   func(h []int) bool // optional: histories outside it are not part of the plan
+	fixed    [][]int            // optional: the plan consists of exactly these histories (all of length depth)
 	preamble [][]byte
 	preObs   *chainx.Obs
 	world    *chainx.World
@@ -512,6 +513,21 @@ func lifecycleTemplates() []chainx.Tpl {
 	return append([]chainx.Tpl{tv, tr}, chainx.TplByName("empty")...)
 }
 
+// pagesVariants are the variants of part "pages".
+func pagesVariants(depth int) []variant {
+	prune := func(c *config.Blockchain) {
+		c.Ledger.RemoveUntraceableBlocks = true
+		c.Ledger.GarbageCollectionPeriod = 1
+	}
+	all := uint(1<<uint(depth+1)) - 1
+	return []variant{
+		{Name: "mem/pages-prune-gc-flush-all", Backend: "mem", Cfg: prune, GC: true, Flush: all},
+		{Name: "mem/pages-prune-gc-restart-alt", Backend: "mem", Cfg: prune, GC: true, Flush: all, Restart: all & 0x55555555},
+		{Name: "bolt/pages-prune-gc", Backend: "bolt", Cfg: prune, GC: true, Flush: all, Restart: all & 0x44444444},
+		{Name: "mem/pages-archival-restart-all", Backend: "mem", Restart: all},
+	}
+}
+
 func flipVariants(depth int) []variant {
 	all := uint(1<<uint(depth+1)) - 1
 	alt := uint(0x55555555) & all
@@ -556,6 +572,32 @@ func TestCheck(t *testing.T) {
 		return
 	}
 	var scs []*scenario
+	if os.Getenv("C01_PAGES") != "" {
+		// Part "pages": built with the header-hash page size scaled from 2000 to 4 (overlay hdrbatch4).
+		// Only then a bounded history makes a pruning node really delete old blocks and transactions
+		// (removeUntraceableBlocks never deletes inside the current header-hash page): plan F with the
+		// answer coming 10..20 blocks after the request, on pruning+GC variants against the archival reference.
+		tp := chainx.TplByName("designate-oracle", "oracle-request", "empty", "oracle-respond", "ledger-reads")
+		for _, f := range fams {
+			if f.Multi || (!r.Thorough() && f.SRIH) {
+				continue
+			}
+			for k := 10; k <= 20; k += vk.Pick(r, 2, 1) {
+				for _, last := range []int{3, 4} { // oracle response / plain Ledger reads of the old transaction
+					h := []int{0, 1}
+					for i := 0; i < k; i++ {
+						h = append(h, 2)
+					}
+					if last == 4 {
+						h[2] = 4 // reads right after the request as well
+					}
+					h = append(h, last, 2)
+					scs = append(scs, &scenario{r: r, vs: pagesVariants(len(h)), fam: f, pad: 0, tpls: tp, depth: len(h), fixed: [][]int{h}, tree: map[histKey]*treeNode{}})
+				}
+			}
+		}
+		fams = nil
+	}
 	for _, f := range fams {
 		for _, p := range pads {
 			if !f.Multi && p > 0 {
@@ -592,6 +634,22 @@ func TestCheck(t *testing.T) {
 				}
 				scs = append(scs, sc)
 			}
+			if !f.Multi {
+				// plan F: an oracle request answered k blocks later, k = 0..MaxTraceableBlocks+2 (the
+				// original transaction gets older than what pruning nodes keep), all variants
+				tp := chainx.TplByName("designate-oracle", "oracle-request", "empty", "oracle-respond")
+				for k := 0; k <= int(f.MTB)+2; k++ {
+					if !r.Thorough() && f.Name != "single" && k != int(f.MTB)+1 {
+						continue
+					}
+					h := []int{0, 1}
+					for i := 0; i < k; i++ {
+						h = append(h, 2)
+					}
+					h = append(h, 3, 2)
+					scs = append(scs, &scenario{r: r, vs: variants(r, len(h)), fam: f, pad: p, tpls: tp, depth: len(h), fixed: [][]int{h}, tree: map[histKey]*treeNode{}})
+				}
+			}
 			if r.Thorough() {
 				// plan B: the quick alphabet, depth 3, the basic variants
 				scs = append(scs, &scenario{r: r, vs: variants(nil, 3), fam: f, pad: p, tpls: chainx.TplByName(tplNames(nil)...), depth: 3, tree: map[histKey]*treeNode{}})
@@ -627,7 +685,17 @@ func TestCheck(t *testing.T) {
 				continue
 			}
 			var hs [][]int
-			enumerate(len(sc.tpls), d, func(h []int) { hs = append(hs, append([]int{}, h...)) })
+			if sc.fixed != nil {
+				seen := map[histKey]bool{}
+				for _, f := range sc.fixed {
+					if !seen[key(f[:d])] {
+						seen[key(f[:d])] = true
+						hs = append(hs, append([]int{}, f[:d]...))
+					}
+				}
+			} else {
+				enumerate(len(sc.tpls), d, func(h []int) { hs = append(hs, append([]int{}, h...)) })
+			}
 			for _, h := range hs {
 				if _, bad := broken.Load(sc.fam.Name + fmt.Sprint(sc.pad) + string(key(h[:len(h)-1]))); bad {
 					continue
@@ -666,7 +734,7 @@ func TestCheck(t *testing.T) {
 	}
 	var vjobs []vjob
 	for _, sc := range scs {
-		enumerate(len(sc.tpls), sc.depth, func(h []int) {
+		each := func(h []int) {
 			hh := append([]int{}, h...)
 			if _, ok := sc.tree[key(hh)]; !ok {
 				return
@@ -675,7 +743,14 @@ func TestCheck(t *testing.T) {
 			for _, v := range sc.vs {
 				vjobs = append(vjobs, vjob{sc, hh, v})
 			}
-		})
+		}
+		if sc.fixed != nil {
+			for _, f := range sc.fixed {
+				each(f)
+			}
+			continue
+		}
+		enumerate(len(sc.tpls), sc.depth, each)
 	}
 	r.Parallel(len(vjobs), func(i int) {
 		j := vjobs[i]
@@ -714,7 +789,7 @@ func TestCheck(t *testing.T) {
 		"traces_validated_against_impl": int(runs.Get()),
 		"histories":                     int(hist.Get()),
 		"distinct_state_roots":          roots.Len(),
-		"plans":                         "A: full alphabet of the tier, depth 2, all variants; B (thorough only): quick alphabet, depth 3, basic variants; C (single families): value flip/delete/re-create alphabet, depth 5, pruning/GC/latest-state and restart variants; D (single families): Policy whitelisted-method fee set / set again / removed / used, depth 4, same variants; E (single families): candidate life cycle toggles (vote / registration) + idle blocks, depth 7 (<= 2 idle) / 8, restart variants",
+		"plans":                         "A: full alphabet of the tier, depth 2, all variants; B (thorough only): quick alphabet, depth 3, basic variants; C (single families): value flip/delete/re-create alphabet, depth 5, pruning/GC/latest-state and restart variants; D (single families): Policy whitelisted-method fee set / set again / removed / used, depth 4, same variants; F (single families): oracle request answered 0..MaxTraceableBlocks+2 blocks later, all variants; E (single families): candidate life cycle toggles (vote / registration) + idle blocks, depth 7 (<= 2 idle) / 8, restart variants",
 		"block_alphabet":                tplNames(r),
 		"families":                      []string{"single", "single-srih", "multi", "multi-srih"},
 		"preamble_pads":                 pads,
@@ -790,8 +865,8 @@ func replay(r *vk.Run, fams []family, depth int) {
 			}
 			var v variant
 			found := false
-			for _, x := range variants(r, depth) {
-				if x.Name == c.Variant {
+			for _, x := range append(append(variants(r, len(h)), flipVariants(len(h))...), pagesVariants(len(h))...) {
+				if x.Name == c.Variant && !found {
 					v, found = x, true
 				}
 			}
